@@ -57,9 +57,17 @@ def surface_position(
     lat_even_s = lat_even_n - 90
     lat_odd_s = lat_odd_n - 90
 
-    # chose which solution corrispondes to receiver location
-    lat_even = lat_even_n if lat_ref > 0 else lat_even_s
-    lat_odd = lat_odd_n if lat_ref > 0 else lat_odd_s
+    # chose which solution corrispondes to receiver location: the solutions
+    # repeat every 90 degrees of latitude, the closest to the receiver wins
+    # (the sign of lat_ref alone fails for targets across the equator)
+    lat_even = min(
+        (lat_even_s, lat_even_n, lat_even_n + 90),
+        key=lambda lat: abs(lat - lat_ref),
+    )
+    lat_odd = min(
+        (lat_odd_s, lat_odd_n, lat_odd_n + 90),
+        key=lambda lat: abs(lat - lat_ref),
+    )
 
     # check if both are in the same latidude zone, rare but possible
     if common.cprNL(lat_even) != common.cprNL(lat_odd):
